@@ -40,6 +40,9 @@ var (
 		"rtsp://h/", "rtsp://h/path", "rtsp://h/path/sub", "rtsp://h/path?query=1", "rtsp://h/path/trackID=1",
 		"rtsp://[::1]:8554/path", "rtsp://h/pa@th", "rtsp://user:pass@h/path",
 		"rtsp://h/path/", "rtsp://h/pa%20th", "rtsp://h/pa@t%20h/sub",
+		// the same two resources with the URL handed to the client as a converted net/url value ("raw:", see
+		// parseClientURL): the request line then carries the text itself, as with any other RTSP client
+		"raw:rtsp://h/pa%20th", "raw:rtsp://h/pa@t%20h/sub",
 	}
 
 	// relax flow: request URLs that are track URLs ...
@@ -297,7 +300,7 @@ func judgeBase(b *baseCtx) (f *finding, na bool) {
 		return &finding{"complete/rejected/setup-base-url", fmt.Sprintf("%s credentials for %q (%s) not accepted on %s %s: %s",
 			b.scheme, b.uri, c.ReqMethod, c.ReqMethod, b.srvURL, b.v.Err), c, b.v}, false
 	case expect && !b.v.Accepted:
-		return &finding{"complete/rejected/" + b.scheme + "-" + blame(c), fmt.Sprintf("correct credentials rejected (%s): Authorization %q on %s %s: %s",
+		return &finding{"complete/rejected/" + strings.SplitN(b.scheme, "-", 2)[0] + "-" + blame(c), fmt.Sprintf("correct credentials rejected (%s): Authorization %q on %s %s: %s",
 			b.scheme, b.authz, c.ReqMethod, b.srvURL, b.v.Err), c, b.v}, false
 	case !expect && b.v.Accepted:
 		return &finding{"sound/accepted/" + relaxClass(b), fmt.Sprintf("%s credentials computed for (%s, %q) accepted on %s %s",
@@ -352,15 +355,15 @@ func evalCase(c caseT) (sig, msg string, v verdict) {
 func describe(run *evid.Run) {
 	run.Rule("case = (user, password, realm, nonce, ordered set of enabled verification methods, request method, URL): full product of the menus " +
 		"user{u,'user name',ü,64 chars} x password{'',p,pa:ss,':',a:b:c,' sp ',üñí,'\"q\"',64 chars} x realm{ipcam,'r r',''} x " +
-		"nonce{auth.GenerateNonce(), fixed hex, ''} x enabled{15 ordered non-empty subsets of Basic/DigestMD5/DigestSHA256, nil} x 10 RTSP methods x 11 URLs " +
-		"(root, path, sub-path, query, trackID, stream base with '/', IPv6, '@' in path, credentials in URL, %20, '@'+%20); " +
+		"nonce{auth.GenerateNonce(), fixed hex, ''} x enabled{15 ordered non-empty subsets of Basic/DigestMD5/DigestSHA256, nil} x 10 RTSP methods x 13 URLs " +
+		"(root, path, sub-path, query, trackID, stream base with '/', IPv6, '@' in path, credentials in URL, %20, '@'+%20, the last two also as converted net/url values); " +
 		"per accepted case every single-field perturbation: user/password (client sends other, server expects other, header field rewritten), " +
 		"realm and nonce (server expects other, header field rewritten), request method, algorithm field, request URL (all other menu URLs) and uri field, " +
 		"enabled set without the scheme used, response hex digit (quick: 3 positions, thorough: every position, all 15 values at position 0, truncation), header missing; " +
 		"alternatives per field: quick 2 (next menu entry, value+'x'), thorough all other menu entries + value+'x' + value minus last rune; " +
 		"relax flow = (track-like request URL x digest URI candidate derived from it x 10 methods x 16 enabled sets x small credential menu). " +
 		"non-trivial = anything but (u, p, ipcam, fixed nonce, single enabled method, rtsp://h/path); distinct = the tuple")
-	run.Assume("the server sees the request as Request.Marshal/Request.Unmarshal deliver it (credentials stripped from the request line) and the client sees the challenge as Response.Marshal/Unmarshal deliver it; URLs are built with base.ParseURL as an application would")
+	run.Assume("the server sees the request as Request.Marshal/Request.Unmarshal deliver it (credentials stripped from the request line) and the client sees the challenge as Response.Marshal/Unmarshal deliver it; URLs are built with base.ParseURL as an application would, except the two 'raw:' entries, which are net/url values converted to base.URL so that the request line carries the literal text")
 	run.Assume("Basic credentials are bound to user and password only: realm, nonce, method, algorithm and URL perturbations are applied to Digest credentials only (weaker reading of the statement)")
 	run.Assume("a header whose realm/nonce/username/uri field was rewritten (response unchanged) counts as 'differs from what the server expects'")
 	run.Assume("the SETUP rule is read from the comment in pkg/auth/verify.go: request URL = <base>/trackID=<digits>, digest uri = <base>/ or <base>; it is treated as a promise (rejecting it is reported as complete/rejected/setup-base-url) and as the only URL relaxation")
@@ -419,7 +422,7 @@ func verdictKey(v verdict) string {
 func unitLevel(run *evid.Run) {
 	th := run.Thorough()
 	for _, u := range urls {
-		pu, err := base.ParseURL(u)
+		pu, err := parseClientURL(u)
 		if err != nil {
 			run.Fatal("menu URL %q does not parse: %v", u, err)
 		}
@@ -641,7 +644,20 @@ func unitLevel(run *evid.Run) {
 				}
 				cls := "other"
 				if b.stage == "" {
-					cls = relaxClass(b)
+					uri := b.uri
+					if b.scheme == "basic" {
+						uri = serverView(pr.authURL).str
+					}
+					switch _, track := splitTrack(b.srvURL); {
+					case relaxOK(b.srvURL, uri) && m == base.Setup:
+						cls = "documented-form-setup"
+					case relaxOK(b.srvURL, uri):
+						cls = "documented-form-other-method"
+					case track:
+						cls = "track-url-other-uri"
+					default:
+						cls = "non-track-url"
+					}
 				}
 				loc["relax:"+cls+":"+strings.SplitN(verdictKey(b.v), ":", 2)[0]]++
 				out["relax|"+cls+"|"+b.scheme+"|"+string(m)+"|"+verdictKey(b.v)] = struct{}{}
